@@ -149,6 +149,7 @@ def gen_case(rng, boundary=False):
     if len(rb) < 2: rb = [0.0, rmax + fs]
     c = rng.uniform(.01, 100, 2)
     if rng.random() < .3: c = 2.0 ** rng.integers(-5, 6, 2)
+    if rng.random() < .25: c = np.array([10.0 ** rng.uniform(-18, -8), 10.0 ** rng.uniform(-6, 0)])   # physical (cgs-like) flux units: sums far below 1
     return dict(disp=disp.tolist(), vel=vel.tolist(), wd=wd.tolist(), wv=wv.tolist(), flux=flux.tolist(), fiber_scale=fs,
                 r_bins=rb, c_flux=float(c[0]), c_weight=float(c[1]), flux_kind=flux_kind, edge_kind=edge_kind,
                 rb_as=str(rng.choice(["array", "list"])), sub=int(rng.integers(0, 2 ** 31)))
